@@ -16,11 +16,11 @@ def graph_tables(G):
     um = {int(i): n for i, n in zip(G.nodes["id"], G.nodes["NodeId"])}
     return parsecmp.canon_result(dict(nodes=G.nodes, references=G.references, lookup_df=None, uniq_map=um, namespaces=G.namespaces, models=G.models))
 
-def graph_variant(G, rng):
+def graph_variant(G, rng, kinds=None):
     """the same graph held differently: UAGraph takes any node/reference tables, so row order, row labels and gaps in the ids are the caller's business.
     'pruned' also removes one namespace's nodes (and what points at them), as a user trimming a graph would."""
     from opcua_tools.ua_graph import UAGraph
-    kind = rng.choice(["as-parsed", "as-parsed", "permuted", "relabelled", "pruned"])
+    kind = rng.choice(kinds or ["as-parsed", "as-parsed", "permuted", "relabelled", "pruned"])
     if kind == "as-parsed": return kind, G
     nodes = G.nodes.copy(); refs = G.references.copy()
     if kind == "permuted":
@@ -92,8 +92,13 @@ def impl_write(G, uri, inc, newver=None):
 def write_request(tables, uri, inc, newver, fname):
     return [Sym("write_doc"), tables[:4], [uri, inc, T0.isoformat(), "NOW", [] if newver is None else [newver], fname]]
 
-def make_graph(rng, quick, hostile=False):
+def make_graph(rng, quick, hostile=False, clash=False):
     g = nsgen.gen_graph(rng, n_ns=rng.randint(1, 3), n_nodes=rng.randint(2, 6 if quick else 9), hostile=hostile, dangling=False, value_gen=parseprops.value_gen)
+    if clash:          # one browse name carried by nodes of two node classes
+        own = [k for k in g.order if k[0] != UA]
+        pairs = [(a, b) for a in own for b in own if g.nodes[a]["cls"] != g.nodes[b]["cls"]]
+        if pairs:
+            a, b = rng.choice(pairs); g.nodes[b]["bname"] = (g.nodes[b]["bname"][0], g.nodes[a]["bname"][1])
     # the write-time validator (C16) must not interfere: a valued variable declares the built-in type of its value, or none that is built-in
     from opcua_tools import ua_data_types as T
     for k, n in list(g.nodes.items()):
@@ -277,7 +282,7 @@ def run(ctx, prop):
     reqs = []; meta = []
     try:
         for ci in range({"quick": 14, "thorough": 300}[ctx.tier]):
-            hostile = rng.random() < 0.3
+            hostile = rng.random() < 0.4
             g, ds = make_graph(rng, ctx.quick(), hostile=hostile)
             files = [(n, docs.render(d, rng)) for n, d, _ in ds]
             paths = graphprops.write_files(work, files)
